@@ -411,6 +411,14 @@ def run_label_sort(case, ctx):
                         rs = ix.sort(ascending=asc, key=fn)
                         if [tuple(t) for t in rs] != [labels[i_] for i_ in order]:
                             ctx.violation(f'ih.sort|key={kf}', labels=labels, ascending=asc, got=[tuple(t) for t in rs], expected=[labels[i_] for i_ in order])
+                        # the same hierarchy as COLUMNS, sorted with the same key function: labels and the data under them move together
+                        ft_ = f.transpose()
+                        rc_ = ft_.sort_columns(ascending=asc, key=fn)
+                        gotc = [tuple(t) for t in rc_.columns]
+                        cols_before = {tuple(t): [norm(x) for x in ft_.iloc[:, j].values] for j, t in enumerate(ft_.columns)}
+                        cols_after = {tuple(t): [norm(x) for x in rc_.iloc[:, j].values] for j, t in enumerate(rc_.columns)}
+                        if gotc != [labels[i_] for i_ in order] or cols_after != cols_before:
+                            ctx.violation(f'frame.sort_columns|ih|key={kf}', labels=labels, ascending=asc, got=gotc, expected=[labels[i_] for i_ in order], data_follows_labels=cols_after == cols_before)
                     except Exception as e:
                         if tree:
                             ctx.violation(f'sort_index|ih|key={kf}|raises-{type(e).__name__}', labels=labels, ascending=asc, error=repr(e))
